@@ -140,13 +140,31 @@ fn swz(rng: &mut Rng, from: usize, n: usize) -> String {
 /// enumeration constants without an enumerator, prototypes of functions with out parameters, value template parameters,
 /// nested structs / arrays of structs, struct out parameters, methods with out parameters
 pub fn extra_program(rng: &mut Rng) -> String {
-    match rng.below(5) {
+    match rng.below(6) {
+        5 => qualified_matrix_subscript(rng),
         0 => scalar_swizzles(rng),
         1 => enums(rng),
         2 => prototypes(rng),
         3 => value_templates(rng),
         _ => nested_structs(rng),
     }
+}
+
+/// a subscript on a matrix whose type carries a modifier (`const` local, `static const` global): the exporter refuses every
+/// matrix subscript (`UnimplementedMatrixIndex`: `m[i]` is a COLUMN in Metal, a row in the source) — the guard looks at the
+/// type WITHOUT its modifiers; an exporter that lets these through is judged on what it emits (seeded mutant C02-5)
+fn qualified_matrix_subscript(rng: &mut Rng) -> String {
+    let (r, c) = (2 + rng.below(3) as usize, 2 + rng.below(3) as usize);
+    let mt = format!("float{}x{}", r, c);
+    let rowt = format!("float{}", c);
+    let xs: Vec<String> = (0..r * c).map(|i| format!("{}.0f", i + 1)).collect();
+    let i = rng.below(r as u64);
+    let j = rng.below(c as u64);
+    let mut out = format!("static const {} cm = {}({});\n", mt, mt, xs.join(", "));
+    out.push_str(&format!("{} pick({} p, {} v)\n{{\n    const {} m = p;\n    return m[{}] + v;\n}}\n", rowt, mt, rowt, mt, i));
+    out.push_str(&format!("float elem({} p)\n{{\n    const {} m = p;\n    return m[{}][{}] + m[0][{}];\n}}\n", mt, mt, i, j, c - 1));
+    out.push_str(&format!("{} fromconst({} v)\n{{\n    return cm[{}] + v;\n}}\n", rowt, rowt, i));
+    out
 }
 
 fn scalar_swizzles(rng: &mut Rng) -> String {
@@ -274,6 +292,28 @@ pub fn vex_extra(rng: &mut Rng) -> String {
     let k = *rng.pick(&KINDS);
     let n = 2 + rng.below(3) as usize;
     let m = 2 + rng.below(3) as usize;
+    if rng.chance(1, 5) {
+        // statement-level `%=` on a floating-point vector place: `l = metal::fmod(l, r)` since fixes 92d66eb + 35faaaa (the refusals
+        // — a right operand that may write, a target that is not a plain place — are tied by the streams C02.gen and C02.dup: a
+        // rejected module has no IR to send to the vector model)
+        let j = 1 + rng.below(n as u64) as usize;
+        let distinct = ["x", "y", "z", "w"][..n].to_vec();
+        let mut pick = distinct.clone();
+        let mut place = String::new();
+        for _ in 0..j {
+            let i = rng.below(pick.len() as u64) as usize;
+            place.push_str(pick.remove(i));
+        }
+        let st = match rng.below(6) {
+            0 => format!("v %= ({})s;", vt("float", n)),
+            1 => format!("v %= w.{} + ({})s;", swz(rng, n, n), vt("float", n)),
+            2 => format!("v.{} %= ({})s;", place, vt("float", j)),
+            3 => format!("v.{} %= w.{};", place, swz(rng, n, j)),
+            4 => format!("v %= -w.{};", swz(rng, n, n)),
+            _ => format!("v %= (b ? w : v) * ({})s;", vt("float", n)),
+        };
+        return format!("{0} f1(float s, {0} v, {0} w, bool b)\n{{\n    {1}\n    return v;\n}}\n", vt("float", n), st);
+    }
     let op = if k == "float" { *rng.pick(&["+", "-", "*", "/", "%"]) } else { *rng.pick(&["+", "-", "*", "%", "&", "|", "<<", ">>"]) };
     let rep = |len: usize| "x".repeat(len);
     // a literal next to a vector of a lower kind: typed in the concrete vector type the literal receives since fixes 40c6233
